@@ -294,7 +294,10 @@ fn gen_item_any(t: &mut Tape, allow_known: &Known) -> String {
                 items.push("type X = i32;".into());
             }
             let uns = if t.chance(1, 8) { "unsafe " } else { "" };
-            format!("{uns}impl TraitImpl for MyType {{ {} }}", items.join("\n"))
+            // (the trait may be written as a path, with generic arguments, for a path or a generic instantiation)
+            let path = *t.pick(&["TraitImpl", "TraitImpl", "TraitImpl", "TraitImpl", "TraitImpl<u8>", "TraitImpl<>", "a::TraitImpl", "a::TraitImpl<'static, u8>", "TraitImpl::<u8>"]);
+            let ty = *t.pick(&["MyType", "MyType", "MyType", "a::MyType", "G<u8>", "(u8, u8)"]);
+            format!("{uns}impl {path} for {ty} {{ {} }}", items.join("\n")).replacen("impl TraitImpl for MyType", "impl TraitImpl for MyType", 1)
         }
         _ => OTHER_ITEMS[t.choose(OTHER_ITEMS.len())].to_string(),
     }
@@ -455,7 +458,7 @@ pub fn gen_case(t: &mut Tape, known: &Known) -> Case {
         0 => {
             if item.contains("trait Tr") {
                 gen::gen_trait_attr(t)
-            } else if item.contains("impl TraitImpl") {
+            } else if item.contains("impl TraitImpl") || item.contains("impl a::TraitImpl") {
                 (*t.pick(&["", "ref", "dyn", "debug = false"])).to_string()
             } else {
                 let nd = t.chance(1, 5);
@@ -464,7 +467,7 @@ pub fn gen_case(t: &mut Tape, known: &Known) -> Case {
         }
         _ => gen_attr_any(t),
     };
-    let wrap_items = (item.contains("impl TraitImpl") || item.contains(" mod ")) && t.chance(1, 6);
+    let wrap_items = (item.contains("impl TraitImpl") || item.contains("impl a::TraitImpl") || item.contains(" mod ")) && t.chance(1, 6);
     Case { macro_name, attr, item, misuse: None, detail: String::new(), wrap_items }
 }
 
